@@ -381,7 +381,7 @@ theorem name_group_single_unloc (fs : List Scaffold) (h orig : Str) (ids : List 
   have hne : orig ≠ [] := by intro e; rw [e] at hc; cases hc
   have := (name_group_single fs h orig ids prefix_ n hnd).2.2.2.2 hne j hj (unlocSuffix k)
     (by rw [hn, List.append_assoc]; rfl) (not_occurs_unloc orig k c hc hd hu)
-  rw [this, List.append_assoc]; rfl
+  rw [this]; simp [unlocSuffix]
 
 /-- non-vacuity of G2: chromosome, its unloc, an untouched scaffold -/
 example :
@@ -430,28 +430,35 @@ theorem build_groups_single_fails_iff (fs : List Scaffold) (h : Str) (entries : 
       ∃ e ∈ entries, truthy (fs.getD e.2 default).originalName = false := by
   constructor
   · rintro ⟨err, herr⟩
-    by_cases hg : ∀ e ∈ entries, truthy (fs.getD e.2 default).originalName = true
-    · rw [buildGroups_single_ok fs h entries hne hh hg] at herr; cases herr
-    · simp only [not_forall] at hg
-      obtain ⟨e, he, hbad⟩ := hg
-      exact ⟨e, he, by simpa using hbad⟩
+    by_cases hb : ∃ e ∈ entries, truthy (fs.getD e.2 default).originalName = false
+    · exact hb
+    · have hg : ∀ e ∈ entries, truthy (fs.getD e.2 default).originalName = true := by
+        intro e he
+        cases ht : truthy (fs.getD e.2 default).originalName with
+        | true => rfl
+        | false => exact absurd ⟨e, he, ht⟩ hb
+      rw [buildGroups_single_ok fs h entries hne hh hg] at herr; cases herr
   · intro hb; exact ⟨_, buildGroups_single_bad fs h entries hh hb⟩
 
-/-- three fused scaffolds: chromosome A, its unloc, chromosome B -/
+/-- four fused scaffolds: chromosome A (100 bp), its unloc (50 bp), chromosome B (300 bp), chromosome C (120 bp) -/
 def exFs : List Scaffold :=
   [{ name := "Scaffold_1".toList, rank := 1, originalName := some "Scaffold_1".toList,
      rows := [.frag { name := "a".toList, start := 1, stop := 100, strand := 1 }] },
    { name := "Scaffold_1_unloc_1".toList, rank := 1, originalName := some "Scaffold_1".toList,
      rows := [.frag { name := "b".toList, start := 1, stop := 50, strand := 1 }] },
    { name := "Scaffold_2".toList, rank := 1, originalName := some "Scaffold_2".toList,
-     rows := [.frag { name := "c".toList, start := 1, stop := 300, strand := 1 }] }]
-def exEntries : List (Str × Nat) := [(sNone, 0), (sNone, 1), (sNone, 2)]
+     rows := [.frag { name := "c".toList, start := 1, stop := 300, strand := 1 }] },
+   { name := "Scaffold_3".toList, rank := 1, originalName := some "Scaffold_3".toList,
+     rows := [.frag { name := "d".toList, start := 1, stop := 120, strand := 1 }] }]
+def exEntries : List (Str × Nat) := [(sNone, 0), (sNone, 1), (sNone, 2), (sNone, 3)]
 
 example : buildGroups exFs [sNone] exEntries =
-    .ok [[(sNone, [("Scaffold_1".toList, [0, 1])])], [(sNone, [("Scaffold_2".toList, [2])])]] := by decide
+    .ok [[(sNone, [("Scaffold_1".toList, [0, 1])])], [(sNone, [("Scaffold_2".toList, [2])])],
+         [(sNone, [("Scaffold_3".toList, [3])])]] := by rfl
 example : exEntries ≠ [] ∧ (∀ e ∈ exEntries, e.1 = sNone) ∧
     (∀ e ∈ exEntries, truthy (exFs.getD e.2 default).originalName = true) ∧ (exEntries.map (·.2)).Nodup := by decide
-example : buildGroups [{ name := "x".toList, rank := 1 }] [sNone] [(sNone, 0)] = .error .value := by decide
+example : (match buildGroups [{ name := "x".toList, rank := 1 }] [sNone] [(sNone, 0)] with
+    | .error e => some e | .ok _ => none) = some Err.value := by decide
 
 /-! ## G3  numbering 1..n by size -/
 
@@ -492,9 +499,12 @@ theorem numbering_single (prefix_ : Str) (fs : List Scaffold) (h : Str) (entries
     obtain ⟨k, hk, hkr⟩ := List.mem_iff_getElem.1 hrs
     exact ⟨k, hk, by rw [hkr]; exact hr2, by rw [hkr]; exact hr1⟩
 
-/-- the example: Scaffold_2 (300 bp) becomes SUPER_1; Scaffold_1 with its unloc (150 bp) SUPER_2 / SUPER_2_unloc_1 -/
+/-- the example: Scaffold_2 (300 bp) becomes SUPER_1; Scaffold_1 WITH its unloc (100 + 50 bp) SUPER_2 / SUPER_2_unloc_1;
+    Scaffold_3 (120 bp, longer than Scaffold_1 alone) SUPER_3 -/
 example : (nameChromosomes "SUPER_".toList exFs [sNone] exEntries).toOption.map (fun fs => fs.map (·.name)) =
-    some ["SUPER_2".toList, "SUPER_2_unloc_1".toList, "SUPER_1".toList] := by decide +kernel
+    some ["SUPER_2".toList, "SUPER_2_unloc_1".toList, "SUPER_1".toList, "SUPER_3".toList] := by decide +kernel
+example : sortedRuns exFs (groupRuns (origPairs exFs exEntries)) =
+    [("Scaffold_2".toList, [2]), ("Scaffold_1".toList, [0, 1]), ("Scaffold_3".toList, [3])] := by decide +kernel
 
 /-- **G3 inside `assemblies_with_scaffolds_fused`.**  If the split loop saw exactly one haplotype key `h` among the
     painted (rank 1) scaffolds and each of them has an `original_name`, then `assembliesFused` is: number the runs as in
@@ -591,9 +601,10 @@ theorem names_unique_autosomes (prefix_ : Str) (fs : List Scaffold) (h : Str) (e
 example : (∀ e ∈ exEntries, PieceShape exFs e.2) := by
   intro e he
   simp only [exEntries, List.mem_cons, List.not_mem_nil, or_false] at he
-  rcases he with rfl | rfl | rfl
+  rcases he with rfl | rfl | rfl | rfl
   · exact ⟨[], by decide, noDigitHd_nil, by decide⟩
   · exact ⟨unlocSuffix 1, by decide, noDigitHd_unloc 1, by decide⟩
+  · exact ⟨[], by decide, noDigitHd_nil, by decide⟩
   · exact ⟨[], by decide, noDigitHd_nil, by decide⟩
 example : ∀ e ∈ exEntries, ∀ e' ∈ exEntries, e.2 ≠ e'.2 → origOf exFs e.2 = origOf exFs e'.2 →
     (exFs.getD e.2 default).name ≠ (exFs.getD e'.2 default).name := by decide
@@ -657,24 +668,35 @@ def exFrag (nm : Str) (stop : Int) : Fragment := { name := nm, start := 1, stop 
 def exPiece (nm orig ctg : Str) (len : Int) : Res :=
   { o := { bait := exFrag orig len, start := 1, stop := len, rows := [.frag (exFrag ctg len)], name := nm, rank := 1,
            originalName := some orig, originalTags := some [sPainted] }, added := true }
-/-- Pretext scaffolds Scaffold_1 (100 bp) with one unloc (50 bp) and Scaffold_2 (300 bp), all painted -/
+/-- Pretext scaffolds Scaffold_1 (100 bp) with one unloc (50 bp), Scaffold_2 (300 bp), Scaffold_3 (120 bp), all painted -/
 def exBuild : Build :=
   { namer := { autosomePrefix := "SUPER_".toList },
     store := [exPiece "Scaffold_1".toList "Scaffold_1".toList "ctgA".toList 100,
               exPiece "Scaffold_1_unloc_1".toList "Scaffold_1".toList "ctgB".toList 50,
-              exPiece "Scaffold_2".toList "Scaffold_2".toList "ctgC".toList 300],
+              exPiece "Scaffold_2".toList "Scaffold_2".toList "ctgC".toList 300,
+              exPiece "Scaffold_3".toList "Scaffold_3".toList "ctgD".toList 120],
     nextOid := 0, joinGap := none, err := 1 }
 
-/-- the larger Pretext scaffold becomes SUPER_1, the smaller one SUPER_2 and its unloc follows it directly -/
+/-- the largest Pretext scaffold becomes SUPER_1; Scaffold_1 counts with its unloc (150 bp > 120 bp) and becomes SUPER_2,
+    its unloc follows it directly and precedes SUPER_3 -/
 example : (assembliesFused [] exBuild).toOption.map
       (fun r => r.1.map (fun a => (a.key, a.scaffolds.map (fun s => (s.name, s.fragmentsLength))))) =
-    some [(none, [("SUPER_1".toList, 300), ("SUPER_2".toList, 100), ("SUPER_2_unloc_1".toList, 50)])] := by
+    some [(none, [("SUPER_1".toList, 300), ("SUPER_2".toList, 100), ("SUPER_2_unloc_1".toList, 50),
+                  ("SUPER_3".toList, 120)])] := by
   decide +kernel
+example : (assembliesFused [] exBuild).toOption.map (fun r => r.1.map (fun a => a.scaffolds.map (·.rank))) =
+    some [[1, 1, 1, 1]] := by decide +kernel
+
+/-- … which is the situation of `unloc_directly_after` with `n = 2`, `k = 1`, `n' = 3` at positions 1, 2, 3 -/
+example : "SUPER_2".toList = "SUPER_".toList ++ natToStr 2 ∧
+    "SUPER_2_unloc_1".toList = "SUPER_".toList ++ natToStr 2 ++ C20.unlocInfix ++ natToStr 1 ∧
+    "SUPER_3".toList = "SUPER_".toList ++ natToStr 3 := by decide
 
 /-- the split loop of the example has the single haplotype key `"None"` (hypothesis of `assemblies_fused_single`) -/
-example : ∃ asms entries fs, C09.splitLoop exBuild.namer.autosomePrefix (fuseByName exBuild) = (asms, entries, [sNone], fs) ∧
-    ∀ e ∈ entries, truthy (fs.getD e.2 default).originalName = true :=
-  ⟨_, _, _, by decide +kernel, by decide +kernel⟩
+example :
+    let st := C09.splitLoop exBuild.namer.autosomePrefix (fuseByName exBuild)
+    st = (st.1, st.2.1, [sNone], st.2.2.2) ∧
+    ∀ e ∈ st.2.1, truthy (st.2.2.2.getD e.2 default).originalName = true := by decide +kernel
 
 example : C20.PrefixOk "SUPER_".toList := by decide
 
